@@ -81,7 +81,8 @@ Section RawOpsWF.
       destruct (Z.ltb_spec (items t + additional) (2 ^ 64)) as [Hlt|Hge].
       2:{ destruct f; cbn [capacity_overflow bind]; discriminate. }
       change (reserve_rehash_full_capacity (zn (mask t))) with (z_cap (mask t)).
-      unfold reserve_rehash_in_place, reserve_rehash_resize_target.
+      rewrite (reserve_rehash_in_place_char (items t + additional) (z_cap (mask t))) by lia.
+      unfold reserve_rehash_resize_target.
       assert (Hzc0 : (0 <= z_cap (mask t))%Z) by lia.
       destruct (Z.leb_spec (items t + additional) (z_cap (mask t) / 2)) as [Hle|Hgt].
       - pose proof (half_le _ Hzc0) as Hhalf.
